@@ -8,7 +8,11 @@ LEAN_MODULES = ["QbiceVerif.Props.C10"]
 DRIVER = "drv_wb"
 HARNESS_BIN = "wb"
 HARNESS_FEATURES = ""
-PARTIAL = []
+PARTIAL = [
+    "drain_on_drop_all / final_content carry the hypothesis `hall` (every created batch was submitted before the drop): "
+    "that is the precondition the property itself states ('by shutdown'); drain_on_drop needs no such hypothesis and "
+    "stall_iff_gap / abort_only_on_gap say what happens when a created batch is never submitted.",
+]
 ASSUMPTIONS = [
     "every WriteBatch is submitted at most once and only while the WriteBehind is alive (Rust move semantics / "
     "`&mut self` of Drop): the model's `submit e` is enabled only for a created, not yet submitted epoch before the drop starts",
